@@ -63,3 +63,9 @@ CLAIMED['C11'] = dict(
          '(window samples + header capture; unrolled per inline block extent 4/8[/16]), seismic_file_producer (layout agreement for the window shape, hash of the window rows) -- '
          'all cube shapes and all windows. Glue in run()/run_conversion_loop and the CLI are not under contract.',
     note='AX-SEGYIO-R handle model; reduce_iops falls back to segyio for windows (fix 7a327a8); composition by modularity')
+CLAIMED['C04'] = dict(
+    text='Proof per function of the header chain: capture (io_thread_func[_2d], reduced-I/O bytes), classification (HeaderwordInfo.__init__ list modes exactly; heuristic mode under the '
+         'property\'s precondition with all but 2-3 header words zero), thorough re-classification + patch order, table serialisation and count, footer arrays (int32, ascending field order, '
+         'stride 512*ceil(4n/512); NumPy route any integer dtype + default inline/crossline arrays), reader table parse + offsets (get_header_dict), gen_trace_header, SEG-Y file header copy. '
+         'Unbounded in trace count and header values; the loops over the 89 header words are unrolled on tables with few non-trivial entries.',
+    note='AX-SEGYIO-ENUM/-R, AX-NP-ALL; composition by modularity; found and fixed D3 (512 padding), D4 (int64 arrays), D34 (array order)')
